@@ -287,7 +287,7 @@ func runC11(res *hx.Result, rng *hx.Rng, tier string, outdir string) {
 			res.Fail("c11-oracle", fmt.Sprintf("%s: %s | forced labels: %s", desc, f, strings.Join(o.labels, "; ")))
 		}
 		term := c11CaseTerm(j.sc, o)
-		if j.wrap != "" && seen[term] {
+		if (j.wrap != "" || j.fam == 2) && seen[term] {
 			same++ // forced labels and observations identical to a case already written: nothing new for the model
 			continue
 		}
@@ -317,7 +317,7 @@ func runC11(res *hx.Result, rng *hx.Rng, tier string, outdir string) {
 		res.Notes = append(res.Notes, fmt.Sprintf("%d runs skipped after %d runs hit a deadline", skipped, c11HungTotal()))
 	}
 	res.Notes = append(res.Notes,
-		fmt.Sprintf("%d of the runs through net.ConnStream gave a case term (forced labels + observations) already compared with the model and were not written again", same),
+		fmt.Sprintf("%d of the runs (through net.ConnStream, or with many handlers) gave a case term (forced labels + observations) already compared with the model and were not written again", same),
 		fmt.Sprintf("%d scenarios, %d runs, %d stream operations in total; fault injected at every script position, inside every Write and after every fragment of every fragmented frame", len(scs)+len(blocked)+len(many), len(jobs), ops),
 		fmt.Sprintf("wall-clock bound asserted by the oracles: every wait %v; largest latency from loss (or release of the held Close) to a call's return: %v", hang, maxLat),
 		"no defect switch is defined for C11: the pinned code showed no violation")
